@@ -707,7 +707,8 @@ impl<'a> PayloadGen<'a> {
     fn named(&self, rng: &mut Rng, name: &str, sub: &[ASel], budget: usize, st: &mut PayloadStats) -> Value {
         match name {
             "Int" => json!(*rng.pick(&[0i64, 1, -1, 42, i32::MAX as i64, i32::MIN as i64])),
-            "Float" => json!(*rng.pick(&[0.5f64, -1.25, 3.0, 1e10])),
+            // (a quarter of the Float values are written as integer tokens: `3` is a valid Float on the wire)
+            "Float" => if rng.chance(25) { json!(*rng.pick(&[3i64, -12, 0])) } else { json!(*rng.pick(&[0.5f64, -1.25, 3.0, 1e10])) },
             "String" => json!(*rng.pick(&["", "hello", "ünïcode ✓", "with \"quotes\"", "line\nbreak", "123"])),
             "Boolean" => json!(rng.chance(50)),
             "ID" => {
@@ -780,7 +781,7 @@ impl<'a> PayloadGen<'a> {
             }
             ATy::Named(n) => match n.as_str() {
                 "Int" => json!(*rng.pick(&[0i64, 5, -7, i32::MAX as i64])),
-                "Float" => json!(*rng.pick(&[0.5f64, -2.5, 4.0])),
+                "Float" => if rng.chance(25) { json!(*rng.pick(&[4i64, -1, 0])) } else { json!(*rng.pick(&[0.5f64, -2.5, 4.0])) },
                 "String" => json!(*rng.pick(&["", "text", "ünï", "a\"b"])),
                 "Boolean" => json!(rng.chance(50)),
                 "ID" => json!(*rng.pick(&["id1", "42", ""])),
